@@ -35,6 +35,58 @@ def run_C18(ctx, K):
         K.run_cases(ctx, cases, "Heap.v~recompute_heap.go (random)")
 
 
+# ------------------------------------------------------------------ engine properties (C01..C13)
+
+ENGINE_TB = TB_COMMON + [
+    "engine model coq/theories/Engine.v (hand transliteration of graph.go, node.go, bind.go, stabilize.go, var.go, observe.go, "
+    "map*.go, cutoff.go, always.go, adjust_heights_heap.go); NOT modelled: Sentinel, Timer, Watch, Func, Freeze, Expert setters, "
+    "tracing, Dot, node slabs, the >64-edge index, Map3..Map8/MapIf (same shape as Map2/MapN), the Go runtime",
+    "property oracles evaluated on the implementation by the harness (internal/eng/oracle.go), independent of the model",
+]
+
+ENGINE_STREAMS = {
+    # property: list of (profile, histories quick, histories thorough, ops)
+    "C01": [("C01", 60, 1500, 40), ("static", 40, 1000, 40)],
+    "C02": [("C01", 60, 1500, 40), ("midset", 40, 1000, 40)],
+    "C03": [("C01", 60, 1500, 40), ("faults", 40, 1000, 40)],
+    "C05": [("C01", 50, 1500, 40), ("faults", 50, 1500, 40)],
+    "C06": [("C01", 60, 1500, 40), ("churn", 40, 1000, 60)],
+    "C07": [("faults", 100, 3000, 40)],
+    "C08": [("binds", 100, 3000, 40)],
+    "C10": [("C01", 50, 1500, 40), ("faults", 50, 1500, 40)],
+    "C11": [("cutoffs", 100, 3000, 40)],
+    "C12": [("midset", 60, 1500, 40), ("unobs", 40, 1500, 40)],
+    "C13": [("C01", 50, 1500, 40), ("midset", 50, 1500, 40)],
+}
+
+
+def run_engine(ctx, K):
+    b = K.go_build(ctx, "incrtrace")
+    if not b:
+        return
+    for (profile, nq, nt, ops) in ENGINE_STREAMS[ctx.pid]:
+        n = tier_n(ctx, nq, nt)
+        cases = os.path.join(ctx.rundir, "cases_%s_%s.v" % (ctx.pid, profile))
+        rep = K.run_tool(ctx, b, ["-prop", profile, "-claim", ctx.pid, "-n", str(n), "-ops", str(ops), "-coq", cases,
+                                  "-coqmax", str(tier_n(ctx, nq, 400)), "-seed", str(ctx.seed)], "engine-" + profile)
+        if rep:
+            ctx.coq_cases += rep.get("coq_cases", 0)
+            K.run_cases(ctx, cases, "Engine.v~go-incr engine (%s stream)" % profile)
+
+
+def engine_plan(pid):
+    return dict(
+        run=run_engine,
+        assumptions=[
+            "theorems are about the Gallina engine model; the Go code is tied to it by replaying recorded histories (result class, "
+            "event sequence, node count, queued set, registered set, observer and node values after every operation)",
+            "node functions are pure and come from small finite families; histories are generated, not exhaustive",
+        ],
+        trusted_base=ENGINE_TB,
+        checker_cmd="make -C coq (coq_makefile, full .vo build) && coqc theories/Properties/%s.v" % pid,
+    )
+
+
 PLANS = {
     "C18": dict(
         run=run_C18,
@@ -46,6 +98,10 @@ PLANS = {
         checker_cmd="make -C coq (coq_makefile, full .vo build) && coqc theories/Properties/C18.v",
     ),
 }
+
+
+for _pid in ENGINE_STREAMS:
+    PLANS[_pid] = engine_plan(_pid)
 
 
 def replay(ctx, K, plan, path):
